@@ -1236,7 +1236,7 @@ func c15Intermediates(res *kit.Result, m *c15Mount, seed int64, only string) {
 		q := &c15Req{Kind: "intermediate", Format: "pem", Intent: "ca"}
 		q.PathIssuer = kit.Pick(rng, []string{"long", "pl1", "inter", "short-err", "short-permit"})
 		q.CN = "C15 sub CA " + strconv.Itoa(i)
-		q.CSR = &c15CSR{Key: kit.Pick(rng, []string{"ec256", "ec384", "rsa2048"}), CN: "csr-cn.example.com", CA: rng.Chance(1, 2)}
+		q.CSR = &c15CSR{Key: kit.Pick(rng, []string{"ec256", "ec384", "rsa2048", "rsa2046"}), CN: "csr-cn.example.com", CA: rng.Chance(1, 2)}
 		switch rng.Intn(4) {
 		case 0:
 			q.TTL = 10 * time.Hour
